@@ -14,6 +14,7 @@ import (
 //	stop    : stop request (+ kill escalation), obeying / ignoring processes, repeat (C05)
 //	timeout : DAG timeout                (C05)
 //	dry     : dry run                    (C03)
+//	listener: retries + continueOn.failure + done listener (free-running: slow listener) (C01 C02 C03)
 func GenScenario(family string, id int, rng *rand.Rand) Scenario {
 	n := 1 + rng.Intn(5)
 	if rng.Intn(3) > 0 {
@@ -81,6 +82,19 @@ func GenScenario(family string, id int, rng *rand.Rand) Scenario {
 		}
 		if rng.Intn(3) == 0 {
 			withHandlers()
+		}
+	case "listener":
+		// retried, failure-tolerant steps with dependents next to independent steps, always with a done listener
+		// (free-running mode makes that listener slow): what a dependent sees while a sender is blocked in `done <- node`
+		sc.DoneChan = true
+		sc.MaxActive = 0
+		for i := 0; i < n; i++ {
+			sc.PCond[i] = "none"
+			if rng.Intn(2) == 0 {
+				sc.RLimit[i] = 1 + rng.Intn(2)
+				sc.FailK[i] = 1 + rng.Intn(sc.RLimit[i])
+				sc.ContF[i] = rng.Intn(3) > 0
+			}
 		}
 	case "order":
 		if rng.Intn(4) == 0 {
